@@ -38,7 +38,7 @@ def so():
 
 
 def so_asan():
-    if 'soa' not in _c: _c['soa'] = build.native_lib(['src/engine/engine_forward.c'], SUP, name='forward_act_asan', extra_c=STUB_C, redirect=['mj_warning'], sanitize=True)
+    if 'soa' not in _c: _c['soa'] = build.native_lib(['src/engine/engine_forward.c'], SUP, name='forward_act_asan', extra_c=STUB_C + 'int mj__comparePcFuncName(void* a, void* b) { return 1; }\n', redirect=['mj_warning'], sanitize=True)
     return _c['soa']
 
 
